@@ -1119,6 +1119,102 @@ def confirm(H, data, cmp_, runs):
     return differs, [r["text"] for r in res]
 
 
+def gen_repeats(rng, n, layout):
+    """Data with long repeats where an older string is later the best match source."""
+    out = bytearray()
+    if layout == "records":
+        vocab = [bytes(rng.choice(b"abcdefghijklmnopqrstuvwxyz_ ") for _ in range(rng.randrange(10, 60))) for _ in range(24)]
+        k = 0
+        while len(out) < n:
+            k += 1
+            out += b"id=%06d;" % (k * rng.choice((1, 1, 7))) + rng.choice(vocab) + b";" + rng.choice(vocab)[:rng.randrange(4, 40)] + b"\n"
+    elif layout == "echo":
+        out += bytes(rng.getrandbits(8) for _ in range(300))
+        while len(out) < n:
+            src = rng.randrange(0, len(out) - 4)
+            ln = rng.choice((3, 4, 5, 8, 13, 21, 40, 80, 273, 300))
+            out += out[src:src + ln]
+            out += bytes(rng.getrandbits(8) for _ in range(rng.choice((0, 1, 1, 2, 5))))
+    elif layout == "phrases":
+        vocab = [bytes(rng.choice(b"ETAOIN SHRDLUetaoinshrdlu.,") for _ in range(rng.randrange(6, 90))) for _ in range(16)]
+        hist = []
+        while len(out) < n:
+            ph = bytearray(rng.choice(vocab))
+            if hist and rng.random() < 0.5:
+                ph = bytearray(rng.choice(hist))
+            if rng.random() < 0.4:
+                ph[rng.randrange(len(ph))] ^= 0x20          # a near copy: agrees with the older one up to here
+            if rng.random() < 0.3:
+                ph = ph[:rng.randrange(3, len(ph) + 1)]
+            hist.append(bytes(ph)); hist = hist[-40:]
+            out += ph
+    else:
+        return gen_plain(rng, n, layout)
+    return bytes(out[:n])
+
+
+FLUSH_OK = re.compile(r" dec=[1-] runs=\d+ diffs=0$")
+
+
+def flush_cases(ctx, H, tag=""):
+    """Encoder output must not depend on how the input after LZMA_SYNC_FLUSH / LZMA_FULL_FLUSH / LZMA_FULL_BARRIER is sliced
+    (fill_window restarts the match finder for the positions left pending by a flush only once enough look-ahead has arrived)."""
+    rng, quick = ctx.rng, ctx.quick()
+    nops = (70 if quick else 700) * (3 if ctx.broken else 1)
+    lines, meta = [], []
+    layouts = ["records", "echo", "phrases", "echo", "records", "text", "code", "runs"]
+    for k in range(nops):
+        n = rng.choice((6000, 9000, 12000, 16000)) + rng.randrange(0, 999)
+        data = gen_repeats(rng, n, rng.choice(layouts))
+        r = rng.random()
+        kinds = "S"
+        if r < 0.45:
+            p = rng.choice((4, 5, 6, 7, 8, 9, 6)) | (EXTREME if rng.random() < 0.25 else 0)
+            if (p & 0xFF) >= 8 and rng.random() < 0.6:
+                p = (p & EXTREME) | rng.choice((4, 5, 6))
+            coder = "easy:%d:%d" % (p, rng.choice((0, 1, 4, 10)))
+            kinds = "SSF"
+        elif r < 0.85:
+            mf = rng.choice(("bt2", "bt3", "bt4", "bt4", "bt3", "hc3", "hc4"))
+            nice = max({"hc3": 3, "hc4": 4, "bt2": 2, "bt3": 3, "bt4": 4}[mf], rng.choice((5, 8, 12, 16, 32, 64, 128, 273)))
+            spec = "lzma2,dict=%d,lc=%d,lp=0,pb=%d,mode=%d,nice=%d,mf=%d,depth=%d" % (
+                rng.choice((4096, 65536, 1 << 20)), rng.choice((0, 3, 4)), rng.choice((0, 2)), rng.choice((1, 2, 2)), nice, MF[mf], rng.choice((0, 0, 4, 50)))
+            if rng.random() < 0.15:
+                spec = "delta,dist=%d+" % rng.choice((1, 4)) + spec
+            coder = rng.choice(("se:%d:%s" % (rng.choice((0, 1, 4)), spec), "rawe:" + spec, "se:4:" + spec))
+            kinds = "SSF" if coder.startswith("se") else "S"
+        else:
+            coder = "semt:%d:0:%d:%d:%s" % (rng.choice((1, 2, 3)), rng.choice((4096, 8192, 0)), rng.choice((1, 4)), rng.choice(("1", "4", "6")))
+            kinds = "FB"
+        npt = rng.choice((1, 1, 1, 2, 3))
+        pts = sorted(rng.randrange(2048, n - 1500) | 1 for _ in range(npt))
+        points = ",".join("%s%d" % (rng.choice(kinds), q) for q in pts)
+        variants = ["1/1", "1/5000", "3/5", "8/12000", "8/1", "2/64", "16/16", "40/7", "100/100", "5000/5000",
+                    "%d/%d" % (rng.randrange(1, 300), rng.randrange(1, 300)), "a%d/%d" % (rng.randrange(1, 40), rng.randrange(1, 4000))]
+        lines.append("flush %s %s %s %d %s" % (coder, hx(data), points, rng.choice((0, 0, 0, 7, 100, 4096)), " ".join(variants)))
+        meta.append((coder, points, len(data)))
+    outs = H.run(lines, costs=[m[2] * (8 if m[0].startswith("easy") else 1) for m in meta])
+    bad = 0
+    for ln, (coder, points, n), o in zip(lines, meta, outs):
+        if o is None:
+            continue
+        mr = re.search(r" runs=(\d+) diffs=(\d+)$", o)
+        if not mr or "bad-" in o:
+            ctx.obligation_broken("harness did not understand a flush op", ln[:120] + " -> " + o[:300])
+            continue
+        ctx.cov["evaluations"] += int(mr.group(1)) + 1
+        ctx.case((coder, points, ln[-64:]), True, {"flush": coder, "points": points, "input_len": n, "result": o[:140]} if bad == 0 and rng.random() < 0.02 else None)
+        ctx.count("flush%s:" % tag + coder.split(":")[0] + ":" + "".join(sorted(set(c for c in points if c in "SFB"))), int(mr.group(1)) + 1)
+        if not FLUSH_OK.search(o):
+            bad += 1
+            if bad <= 5:
+                ctx.violation("flush-slicing" + tag, {"kind": "encoder output after a flush depends on how the following input is sliced (or does not decode to the input)",
+                                                "op": ln, "result": o, "expect_regex": FLUSH_OK.pattern,
+                                                "how_to_replay": "./check C06 --replay <this file>  (variants are <first piece>/<later pieces> after each flush point; the reference offers each segment whole)"}, True)
+    ctx.cov["correspondence"]["flush" + tag] = {"ops": len(lines), "failing": bad}
+    return bad
+
+
 def oracle(ctx, H):
     """The direct C-vs-C slicing oracle. Returns number of violations found."""
     t0 = time.time()
@@ -1211,6 +1307,21 @@ def oracle(ctx, H):
             ctx.violation("determinism-%s" % g["tag"].split(":")[0],
                           replay_dict("determinism", g["data"], g["cmp"], runs_, res, ("" if differs else "not reproduced on the second try (non-deterministic) ") + g["tag"]), True)
             nviol += 1
+    nviol += flush_cases(ctx, H)
+    # Once more on the plain optimised build (NDEBUG): there an encoder-internal assert() cannot pre-empt the comparison, so a
+    # dependence on the slicing shows as differing bytes (the replay is then a property-level failing input).
+    try:
+        okr, _, _ = vlib.c_build("rel", targets=["liblzma"])
+        okh, _, exe_rel = vlib.harness_build("c06rel", HARNESS, variant="rel", libs=LINK) if okr else (False, "", None)
+    except Exception:
+        okh = False
+    if okh:
+        Hrel = Harness(ctx, exe_rel)
+        nviol += flush_cases(ctx, Hrel, tag="-ndebug")
+        if Hrel.abort is not None and H.abort is None:
+            H.abort, H.nabort = Hrel.abort, Hrel.nabort
+    else:
+        ctx.count("flush:ndebug-build-unavailable")
     if H.abort is not None:
         ln, err, rc = H.abort
         ctx.violation("harness-abort", {"kind": "implementation aborted (sanitizer / assert / crash / lzma_code() not returning: watchdog) while being driven by run_sliced",
@@ -1301,7 +1412,8 @@ def replay(ctx, path):
     if "op" in r and "runs" not in r:
         rc, out, err = vlib.run_lines([exe], [r["op"]])
         print("rc", rc, out, err[-2000:])
-        if rc != 0 or (r.get("expect_prefix") and not (out and out[0].startswith(r["expect_prefix"]))):
+        if rc != 0 or (r.get("expect_prefix") and not (out and out[0].startswith(r["expect_prefix"]))) \
+                or (r.get("expect_regex") and not (out and re.search(r["expect_regex"], out[0]))):
             print("VIOLATION property=C06 replay=%s" % path)
             return 1
         print("replay passes")
